@@ -14,6 +14,7 @@
 -/
 import YV.Spec.YTypesS
 import YV.Proofs.YValues
+import YV.Proofs.YDec
 namespace YV.C16
 open YV YV.Y YV.T YV.TS YV.V YV.VS
 
@@ -53,7 +54,15 @@ def asc (s : String) : Bytes := s.toList.map Char.toNat
 /-- the float comparison cannot separate the upper 64-bit bound from its successor (fraction-digits 3):
     the witness of known finding C16-decimal64-float-ranges, on the model -/
 theorem C16_dec64_float_witness :
-    sfOfDecimalText (asc "9223372036854775.808") = sfOfDecimalText (asc "9223372036854775.807") := by decide
+    sfOfDecimalText (asc "9223372036854775.808") = sfOfDecimalText (asc "9223372036854775.807") := by decide +kernel
+
+/-- **C16 (decimal64, lexical form and 64-bit bounds).** For every fraction-digits 1..18 and every text: the check
+    of `validateDecimal64String` (integer part and zero-padded fraction part against quotient and remainder of
+    2^63-1 by 10^fd) passes iff the text is a decimal with at most fd fraction digits whose value, scaled by
+    10^fd, lies in [-2^63, 2^63-1] -/
+theorem C16_dec64_lex (fd : Nat) (h1 : 1 ≤ fd) (h2 : fd ≤ 18) (s : Bytes) :
+    dec64LexOK fd s = true ↔ ∃ v, scaled fd s = some v ∧ -(2 ^ 63 : Int) ≤ v ∧ v ≤ 2 ^ 63 - 1 :=
+  dec64LexOK_iff fd h1 h2 s
 
 /-- … while the lexical / 64-bit check, done on scaled integers, does separate them -/
 theorem C16_dec64_lex_witness :
